@@ -216,10 +216,10 @@ func checkC11(w *World, r *Report) {
 		}
 	}
 	// "the extra amount charged equals the increase in required reservation": the rounding / provenance rules of the difference
-	r.Sub(checkC04, "RD-SIB", "RD-DIR")
-	r.Sub(func(w *World, r *Report) { checkC01(w, r) }, "CREDIT-RECORD", "PAIR-RESERVE")
+	r.SubWhere(checkC04, perRule(map[string]func(string, string) bool{"RD-DIR": keepAny("ModifyBid", "ConvertToPayingAmount")}), "RD-SIB", "RD-DIR")
+	r.SubWhere(func(w *World, r *Report) { checkC01(w, r) }, keepPrefix("ModifyBid:"), "CREDIT-RECORD", "PAIR-RESERVE")
 	// a bid record is never overwritten by another bid: ids are unique per auction, also across an export/import
-	r.Sub(checkC19, "ID-MONO")
+	r.SubWhere(checkC19, keepAny("BidSeq", "PlaceBid:id", "Bid.Id"), "ID-MONO")
 	r.Check(len(hits) == 0, "NO-DELETE", "msg:no-paying-escrow-refund", keeperPath, "no message handler reaches a per-bidder refund out of a paying escrow (reservations are only lowered by settlement)",
 		strings.Join(hits, ", "))
 }
